@@ -227,9 +227,13 @@ var authTypes = map[string]mail.SMTPAuthType{
 type logTap struct {
 	r    *rec.Recorder
 	scan func(string) bool
+	mute *bool // the warm-up dial of variant "warmup" is not part of the recorded scenario
 }
 
 func (l *logTap) record(dir, text string) {
+	if l.mute != nil && *l.mute {
+		return
+	}
 	l.r.Emit("log", "dir", dir, "leak", l.scan(text), "redacted", strings.Contains(text, "<SMTP auth data redacted>"),
 		"text", clipS(text, 300), "post", false, "verbatim", true, "after", false)
 }
@@ -823,8 +827,34 @@ func (rn *Runner) Run() {
 		opctx, opcancel = context.WithCancel(context.Background())
 	}
 	defer opcancel()
+	// variant "warmup": before the scenario starts the same Client completes a dial (STARTTLS, authentication) and a Close
+	// against a well-behaved server that is not part of the scenario and is not recorded; then the policy of the
+	// scenario is set. What a Client does in a dial must not depend on its earlier dials.
+	warmPhase := false
+	var warmSrv *refsmtp.Server
+	if cfg.Variant == "warmup" {
+		mat, err := refsmtp.Material(TLSDir)
+		if err != nil {
+			rn.Infra = err
+			return
+		}
+		wcfg := refsmtp.Config{Caps: []string{"AUTH PLAIN LOGIN", "STARTTLS"}, Caps2: []string{"AUTH PLAIN LOGIN"},
+			Faults: map[refsmtp.Key]refsmtp.Fault{}, Addr: map[string][2]int{}, Expected: map[int][]byte{}, TLS: mat.ServerConfig("ok", 0)}
+		if cfg.Authtype != "" && cfg.Authtype != "NOAUTH" {
+			wcfg.Auth = func(st *tls.ConnectionState) refsmtp.AuthHandler {
+				return &refsmtp.HonestAuth{Creds: sasl.Creds{User: User, Pass: Pass}, NormUser: User, NormPass: Pass,
+					Salt: []byte("warmup-salt-4567"), Iter: 64, NonceSuffix: "warmNonce", Challenge: "<warm@refsmtp.test>", TLS: st}
+			}
+		}
+		warmSrv = refsmtp.New(wcfg, rec.New())
+	}
 	dials := 0
 	dial := func(ctx context.Context, network, address string) (net.Conn, error) {
+		if warmPhase {
+			wc, ws := pipeconn.Pipe()
+			warmSrv.Go(ws)
+			return wc, nil
+		}
 		if cfg.Variant == "ctxcancel" {
 			defer opcancel() // the caller gives up right after the connection was established
 		}
@@ -909,13 +939,21 @@ func (rn *Runner) Run() {
 			post = append(post, func(c *mail.Client) { c.SetSSL(true) })
 		}
 	}
+	if cfg.Variant == "ssltoggle" { // implicit TLS requested and taken back before the dial
+		if rn.T%2 == 0 {
+			opts = append(opts, mail.WithSSL())
+		} else {
+			post = append(post, func(c *mail.Client) { c.SetSSL(true) })
+		}
+		post = append(post, func(c *mail.Client) { c.SetSSL(false) })
+	}
 	if at, ok := authTypes[cfg.Authtype]; ok {
 		add(mail.WithSMTPAuth(at), func(c *mail.Client) { c.SetSMTPAuth(at) })
 		add(mail.WithUsername(User), func(c *mail.Client) { c.SetUsername(User) })
 		add(mail.WithPassword(Pass), func(c *mail.Client) { c.SetPassword(Pass) })
 	}
 	if cfg.Debug {
-		tap := &logTap{r: r, scan: scan}
+		tap := &logTap{r: r, scan: scan, mute: &warmPhase}
 		var lg maillog.Logger = tap
 		switch cfg.Logger {
 		case "std":
@@ -964,6 +1002,20 @@ func (rn *Runner) Run() {
 	}
 	for _, set := range post {
 		set(c)
+	}
+	if warmSrv != nil && cfg.Policy != "implicit" {
+		c.SetTLSPolicy(mail.TLSMandatory)
+		warmPhase = true
+		werr := c.DialWithContext(context.Background())
+		_ = c.Close()
+		warmPhase = false
+		warmSrv.Kill()
+		if werr != nil && cfg.Authtype != "XOAUTH2" && !strings.HasPrefix(cfg.Authtype, "SCRAM") && cfg.Authtype != "CRAM-MD5" {
+			// (mechanisms the warm-up server does not offer fail the warm-up dial: that is part of the history, not an error)
+			rn.Infra = fmt.Errorf("warm-up dial failed: %w", werr)
+			return
+		}
+		c.SetTLSPolicy(policy)
 	}
 
 	sendRet := func(op string, err error, elapsed string) {
